@@ -429,5 +429,19 @@ def gen(rng, tier, dist):
 TECHNIQUE = ("Coq proofs about a hand-written model of Ports::dispatch (linear scan, hashed lookup, tree descent) built on "
              "C05's matcher model + differential correspondence on run-time built port trees under ASan with the "
              "library's own hash tables + independent Python Spec oracle")
-LEVEL_TEXT = ""
-LEVEL_NOTE = ""
+LEVEL_TEXT = ("Proved per table of Ports::dispatch, for ANY callbacks, any number of ports, any address / type string "
+              "(7-bit, no ':'): the loops invoke exactly the ports whose name matches (C05's matcher), once each, in port "
+              "order (C04_exactly_matching_*, C04_scan_hits_are_matches); for every literal table the repaired library "
+              "hashes - pos/assoc being ANY output of the search - the hashed lookup hits port j iff the linear scan does and "
+              "never fails (C04_strategy_independent), at most one port is hit (C04_one_port), the default handler runs only "
+              "when none is (C04_default_handler_only_when_no_port_matches); whatever the tables are the hashed branch never "
+              "invokes a port whose name does not match (C04_hash_sound); the callback sees its own Port, loc = location + "
+              "its name, and the buffer is restored (C04_port_pointer_and_loc, C04_loc_restored_*). The pinned functions are "
+              "refuted on {ab,ba,aa,bb}, {c,a/b}, {a,bcd} (C04_pinned_refuted, C04_multicomponent_refuted, "
+              "C04_prefix_refuted; three fix: commits). NOT proved in Coq (checked by the correspondence run and the Spec "
+              "oracle on generated trees only): the composition over the levels of a tree (loc is the full address at every "
+              "depth, matches = number of leaf callbacks of the whole descent, object threading).")
+LEVEL_NOTE = ("Trusted: Coq kernel, extraction, OCaml driver, harness (run-time built Ports, re-dispatching callbacks), the hook "
+              "Ports::verif_tables, generators, the Python Spec oracle. The perfect-hash search is not modelled: its output "
+              "is an input. Strategy independence is stated for literal single-component names (what the library hashes); "
+              "tables with '#' names take the linear scan in both runs.")
